@@ -194,7 +194,7 @@ pub fn run(cfg: &Cfg) -> i32 {
             bind: c.info.externals.keys().map(|k| (k.clone(), !unsafe_ext)).collect(),
             observe: c.info.globals.iter().enumerate().map(|(k, g)| (k, g.clone())).collect(),
         };
-        let hc = HistCfg { max_ops: cfg.pick(24, 40), flows: false, jumps: false, cont_max: false, set_vars: i % 2 == 0, stop_at_end: true, jump_targets: None };
+        let hc = HistCfg { max_ops: cfg.pick(24, 40), flows: false, jumps: false, cont_max: false, set_vars: i % 2 == 0, stop_at_end: true, bad_calls: false, jump_targets: None };
         let hist = match std::panic::catch_unwind(std::panic::AssertUnwindSafe(|| gen_history(&c, &host, &mut rng, &hc))) {
             Ok(Ok(h)) => h,
             _ => {
